@@ -334,7 +334,8 @@ PipeCreateEff == E([st EXCEPT !.pipe = [NoPipe EXCEPT !.made = TRUE, !.tx = TRUE
 \* op = [o: "pwrite"|"pwritev", bufs]
 PWriteEff(op) ==
   LET total == Sum(SrcLens(op.bufs)) bytes == Tag(total) IN
-  IF ~st.pipe.rx THEN Same(Err("BrokenPipe"))
+  IF total = 0 THEN Same(Ok(0))                     \* a zero-length write returns before the reader check
+  ELSE IF ~st.pipe.rx THEN Same(Err("BrokenPipe"))
   ELSE E([st EXCEPT !.pipe.buf = @ \o bytes, !.pipe.pw = @ \o bytes], Ok(total), Ok(total), FALSE)
 
 \* op = [o: "pread"|"preadv", bufs]
@@ -537,7 +538,7 @@ WB_One == {W(1, 3)}
 WB_Cur == {W(2, 2)}
 VRB_One == {<<B(0, 1), B(0, 2)>>}
 Off_App == {0, 3, MAXOFF}
-PW_Narrow == {W(1, 1), W(2, 4)}
+PW_Narrow == {W(1, 1), W(2, 4), W(0, 0)}
 PVW_Narrow == {<<W(1, 3), W(2, 2)>>}
 PR_Narrow == {B(0, 2), B(1, 1), B(0, 0)}
 PVR_Narrow == {<<B(0, 1), B(0, 2)>>, <<B(1, 1), B(0, 2)>>, <<B(2, 2)>>}
